@@ -204,6 +204,13 @@ def check(ctx):
             ctx.check(not without and not strict_first and bool(reachable), "C14.R6", construct, c,
                       f"`{short(c, 50)}` is " + ("reached although no coercer is configured (None is called: TypeError, or swallowed by the handler: coercion silently disabled)" if without else "consulted before the strict attempt failed" if strict_first else "unreachable: coercion is disabled"),
                       m, c, detail="reached iff coercer configured and strict attempt failed")
+    # every type of the literal values is tried: a failure of the coercer for one type does not abort the loop
+    for t_ in ast.walk(lm.node):
+        if isinstance(t_, ast.Try) and any(isinstance(c_, ast.Call) and norm(c_.func) == "self.coercer" for s_ in t_.body for c_ in ast.walk(s_)):
+            names_ = {n_.split(".")[-1] for h_ in t_.handlers if h_.type is not None for n_ in ([norm(x) for x in h_.type.elts] if isinstance(h_.type, ast.Tuple) else [norm(h_.type)])}
+            swallow = all(all(isinstance(b_, (ast.Pass, ast.Continue)) for b_ in h_.body) for h_ in t_.handlers)
+            ctx.check({"KeyError", "TypeError", "ValidationError"} <= names_ and swallow, "C14.R6", f"{lm.qualname}:retry-handler", t_.handlers[0] if t_.handlers else t_,
+                      f"the coercion retry of LiteralMethod catches {sorted(names_)}: the coercer signals an impossible conversion with ValidationError (bad_type), a value absent from the table gives KeyError and an unhashable result TypeError; a missing class aborts the loop before the other literal types are tried (Literal[1, True] from 'yes')", lm, t_, detail="except (KeyError, TypeError, ValidationError): try next type")
     om6 = model.func(f"{DESER_MOD}.OptionalMethod.deserialize")
     pm = parents_of(om6.node)
     ev6 = BoolEval(atoms6)
@@ -225,6 +232,7 @@ def check(ctx):
 
 
 def mutants(mb):
+    mb.add_text("literal-retry-aborts-on-coercer-error", "apischema/deserialization/methods.py", "                    except (KeyError, TypeError, ValidationError):\n", "                    except (KeyError, TypeError):\n", "C14.R6", "retry-handler")
     mb.add_text("literal-coercer-guard-flipped", "apischema/deserialization/methods.py", "        except KeyError:\n            if self.coercer is not None:\n", "        except KeyError:\n            if self.coercer is None:\n", "C14.R6", "LiteralMethod")
     mb.add_text("optional-coercer-guard-or", "apischema/deserialization/methods.py", "            if self.coercer is not None and self.coercer(NoneType, data) is None:", "            if self.coercer is None or self.coercer(NoneType, data) is None:", "C14.R6", "OptionalMethod")
     mb.add_text("optional-none-for-any-failure", "apischema/deserialization/methods.py", "            if self.coercer is not None and self.coercer(NoneType, data) is None:", "            if self.coercer is not None:", "C14.R6", "OptionalMethod")
